@@ -281,3 +281,175 @@ func argFaultFamily() []argFault {
 	}
 	return out
 }
+
+// ---- every construct that walks or rebuilds an array, on documents with nulls at every position of nested
+// arrays, between reads of the untouched document: [E, @], [@, E, @] and let forms. Added after the eighth wave:
+// library helpers that compact "in place" (slices.DeleteFunc and friends) return the right value and ruin the
+// caller's array; only a second look at the same data shows it.
+var rebuildDocs = []string{
+	`{"a":[[1,null,2],[null,3],4,null,[null],[]],"b":{"x":[null,1],"y":null,"z":[[null,2]]},"c":[3,1,2],"o":{"p":1,"q":null},"s":["b",null,"a"],"g":[{"k":"x","v":null},{"k":"x"},null,{"k":"y","v":[null,1]}]}`,
+	`{"a":[null,[null,null,1],[2,null],[[3,null,4]]],"b":{"x":[1,null,null,2]},"c":[2,null,1],"o":{"q":null},"s":[null,"a"],"g":[null,{"k":"x","v":[1,null,2]}]}`,
+	`{"a":[[null,1],[null,2]],"b":{"x":[null],"y":[null,1]},"c":[],"o":{},"s":["a"],"g":[{"k":"z","v":null}]}`,
+}
+
+func rebuildFamily() []string {
+	es := []string{"a[]", "a[][]", "a[*]", "a[*][*]", "a[?@]", "a[?@ != `null`]", "a[:]", "a[::2]", "a[::-1]", "a[1:]", "a[*][]", "a[][*]", "a[0][]", "a[1][*]", "a[0][*]", "a[3][]", "b.*", "b.*[]", "b.x[*]", "b.x[]", "b.z[][]",
+		"sort(c[?@])", "reverse(a)", "reverse(a[0])", "map(&@, a)", "map(&[], a)", "map(&[*], a)", "map(&[?@], a)", "not_null(a)[]", "to_array(a)[]", "to_array(a[0])[*]", "merge(o, o)", "merge(b, o)", "keys(o)", "values(b)[]", "values(o)", "items(o)",
+		"zip(a, a)", "zip(a[0], a[1])", "a[] | [*]", "a | []", "(a)[]", "(a[0])[*]", "s[]", "s[*]", "s[?@]", "join(',', s[*])", "g[*].v", "g[*].v[]", "g[].v[]", "g[?v].v[*]", "g[*].v[*]", "g[?k == 'x']", "group_by(g[*], &k)", "from_items(items(o))", "a[1:][]", "a[?@][]",
+		"a[*][0]", "a[][0]", "a[*][*][*]", "a[][][]", "[a[0], a[1]][]", "[a[0], a[1]][*][*]", "{x: a[0]}.x[*]", "{x: a}.x[]", "a[0] | [*]", "a[0] | []", "a[0][?@]", "max_by(g[*], &k)", "sort_by(g[?k], &k)", "min_by(g[*], &k)", "a[*] | [0][*]", "b.x | [*]", "b.y || b.x[*]", "a[0] && a[0][*]",
+		"let $v = a in $v[]", "let $v = a in $v[*]", "let $v = a[0] in $v[*]", "let $v = a in [$v[*], $v]", "let $v = a in [$v[], $v]", "let $v = a[0], $w = a[0][*] in [$v, $w]", "let $v = a in [$v[0][*], $v[0]]", "let $v = b.x in [$v[*], $v, $v[?@], $v]", "let $v = a in map(&[*], $v) && $v"}
+	var out []string
+	for _, e := range es {
+		out = append(out, "["+e+", @]", "[@, "+e+", @]", "[a, "+e+"] | [1]")
+		if !strings.HasPrefix(e, "let ") {
+			out = append(out, "let $d = @ in ["+e+", $d, "+e+"]", "["+e+", "+e+"]")
+		}
+	}
+	return out
+}
+
+// ---- one value, every way of obtaining it, every consumer (added after the eighth wave) ----
+// A JSON value reaches an operator or a built-in as a literal (plain or padded with the blanks JSON allows), as the
+// current node, a field, an element, the root, a variable, or out of a multi-select, a pipe, a parenthesis or a
+// built-in that hands its argument on. What a consumer (truthiness, equality, type, to_string, a filter ...) makes
+// of the value does not depend on where it came from: all outcomes of one (value, consumer) pair must be the same.
+// Changes that special-case ONE source (constant folding of literal operands, a fast path of the literal decoder,
+// a built-in that returns a nil slice for "empty") are invisible to streams that draw operands from documents only.
+type vsCase struct {
+	expr string
+	doc  any
+	key  string
+}
+
+func valueSourceFamily() []vsCase {
+	var out []vsCase
+	consumers := func(j string) []string {
+		return []string{"!(X)", "(X) && 'r'", "(X) || 'r'", "'l' && (X)", "`null` || (X)", "`[]` || (X)", "(X) == (X)", "(X) != (X)", "[(X)]", "{k: (X)}", "to_string(X)", "type(X)", "not_null(X, 'd')", "to_array(X)",
+			"(X) == `" + j + "`", "`" + j + "` == (X)", "(X) != `" + j + "`", "contains([(X)], `" + j + "`)", "contains(`[" + j + "]`, (X))", "[(X), (X)][?@]", "(X) | !@", "let $x = (X) in `[1, 2]`[?$x]", "let $x = (X) in [$x && 'r', !$x, $x == (X), to_string($x)]",
+			"to_string([(X)])", "to_string({k: (X)})", "(X) < `1`", "(X) >= `0`", "sort([(X), (X)])", "sum([(X)])", "length(X)", "to_number(X)", "(X) && (X) || 'e'", "!(!(X))", "[(X)][?@ == `" + j + "`]", "(X) == `null`", "(X) == `[]`", "(X) == ''",
+			"to_string(X) == to_string(`" + j + "`)", "{a: (X), b: `" + j + "`} | a == b", "[(X), `" + j + "`] | @[0] == @[1]", "keys({k: (X)})", "(X)[0]", "(X).a", "(X)[*]", "(X)[]", "(X)[:1]", "(X).*", "(X) + `1`", "- (X)", "abs(X)", "join('', [to_string(X)])", "reverse([(X), `1`])", "zip([(X)], [`1`])", "merge({a: (X)}, {b: (X)})"}
+	}
+	var zdoc any = map[string]any{"z": json.Number("1")} // literal sources: any non-null document (a multi-select on a null current node is null)
+	add := func(j, src string, doc any) {
+		for _, c := range consumers(j) {
+			out = append(out, vsCase{strings.ReplaceAll(c, "X", src), doc, j + " / " + c})
+		}
+	}
+	values := []string{"null", "true", "false", "0", "1", "20", "-3", "1.0", "1e2", "0.5", `""`, `"a"`, `"null"`, `"0"`, `" "`, `"[]"`, "[]", "[null]", "[0]", "[[]]", `["a",null]`, "[1,2]", "{}", `{"a":null}`, `{"a":[]}`, "[{}]", `{"a":{}}`}
+	for _, j := range values {
+		v := jsonDoc(j)
+		add(j, "`"+j+"`", zdoc)
+		add(j, "`"+j+" `", zdoc)
+		add(j, "` "+j+"`", zdoc)
+		add(j, "`\n"+j+"\t\r\n `", zdoc)
+		if s, ok := v.(string); ok && !strings.ContainsAny(s, "'\\") {
+			add(j, "'"+s+"'", zdoc)
+		}
+		if v != nil {
+			add(j, "@", v)
+			add(j, "$", v)
+		}
+		add(j, "`["+j+"]`[0]", zdoc)
+		add(j, "`{\"k\": "+j+"}`.k", zdoc)
+		add(j, "`[["+j+"]]`[0][0]", zdoc)
+		fd := map[string]any{"a": v}
+		for _, src := range []string{"a", "$.a", "@.a", "(a)", "a | @", "let $v = a in $v", "let $v = @ in $v.a", "not_null(a)", "[a][0]", "[a, a][1]", "{k: a}.k", "merge({k: a}).k", "values({k: a})[0]", "reverse([a])[0]", "map(&@, [a])[0]", "sort_by([a], &`1`)[0]", "max_by([a], &`1`)", "min_by([a, a], &`1`)",
+			"from_items([['k', a]]).k", "zip([a], [a])[0][1]", "items({k: a})[0][1]", "a || a", "a && a", "to_array([a])[0]", "[a][-1]", "([a][::-1])[0]", "([a][0:1])[0]", "not_null(`null`, a)", "group_by([{g: 'x', v: a}], &g).x[0].v", "(a || `null`) || a", "([[a]][])[0]", "let $v = a in [$v][0]", "map(&a, [@])[0]"} {
+			add(j, src, fd)
+		}
+		add(j, "a[0]", map[string]any{"a": []any{v}})
+		add(j, "a[-1]", map[string]any{"a": []any{json.Number("7"), v}})
+		add(j, "a.b.c", map[string]any{"a": map[string]any{"b": map[string]any{"c": v}}})
+		add(j, "[0]", []any{v})
+		add(j, "[0][0]", []any{[]any{v}})
+	}
+	// built-ins and constructs that PRODUCE a value: the empty array, the empty object, the empty string, zero, null,
+	// the booleans, out of everything that can yield them
+	producers := map[string][]string{
+		"[]": {"values(`{}`)", "keys(`{}`)", "items(`{}`)", "`[1]`[?`false`]", "`[[]]`[]", "to_array(`[]`)", "reverse(`[]`)", "sort(`[]`)", "map(&@, `[]`)", "`[1]`[1:]", "zip(`[]`)", "zip(`[]`, `[1]`)", "`[]`[*]", "`{}`.*", "not_null(`[]`)", "`[null]`[*]", "`[null, null]`[*]", "`[null]`[]", "`[null]`[?@]", "`{\"a\":null}`.*",
+			"`[1]`[:0]", "`[1]`[::-1][1:]", "[`[]`][0]", "`[[]]`[0]", "`[]`[]", "`[]`[?@]", "`[]`[:]", "`[]`[::-1]", "`[]`[::2]", "sort_by(`[]`, &@)", "`[1]`[*].a", "`[1]`[].a", "`{\"a\":1}`.*.b", "`[null]`[*][*]", "merge(`{}`).*", "`[[null]]`[0][*]", "map(&@, `[null]`)[*]", "`[{}]`[*].a", "`[[], []]`[]"},
+		"{}": {"merge(`{}`, `{}`)", "from_items(`[]`)", "`[{}]`[0]", "{k: `{}`}.k", "merge(`{}`)", "not_null(`{}`)", "`[{}]`[*] | [0]", "merge(`{}`, `{}`, `{}`)", "from_items(items(`{}`))", "from_items(zip(`[]`, `[]`))"},
+		`""`: {"''", "join('', `[]`)", "lower('')", "trim(' ')", "'abc'[1:1]", "to_string('')", "replace('a', 'a', '')", "pad_left('', `0`)", "reverse('')", "trim_left(' ')", "trim_right(' ')", "'a'[5:]", "upper('')", "join(',', [''])", "'a'[:0]", "'ab'[::-1][2:]", "pad_right('', `0`, 'x')", "replace('', 'a', 'b')", "trim('x', 'x')", "join('', ['', ''])", "split('a', 'a')[0]", "split('a', 'a')[1]"},
+		"0": {"length('')", "length(`[]`)", "sum(`[]`)", "`1` - `1`", "abs(`0`)", "to_number('0')", "ceil(`0`)", "floor(`0.5`)", "find_first('a', 'a')", "`0` * `5`", "`2` % `2`", "`0` // `1`", "length(`{}`)", "avg(`[0]`)", "min(`[0, 1]`)", "max(`[0, -1]`)", "sum(`[1, -1]`)", "find_last('a', 'a')", "`0` / `5`", "to_number(`0`)"},
+		"null": {"a", "`[]`[0]", "not_null(`null`)", "`{}`.a", "to_number('x')", "max(`[]`)", "min(`[]`)", "`1` < 'a'", "find_first('a', 'b')", "''.a", "`1`[0]", "`1`.a", "'a'[*]", "`{}`[*]", "`1`.*", "`1`[]", "to_number(`true`)", "avg(`[]`)", "max_by(`[]`, &@)", "`[1]`[5]", "`[1]`[-5]", "`null`.a.b", "`true` && `null`", "`null` && `true`", "`false` || `null`", "not_null(`null`, `null`)", "`{\"a\":null}`.a", "to_number('')", "to_number(' 1')", "to_number('1 ')", "`\"a\"`[0]"},
+		"false": {"`1` == `2`", "!`1`", "contains(`[]`, `1`)", "starts_with('a', 'b')", "ends_with('a', 'b')", "`1` != `1`", "`1` > `2`", "!'a'", "!`[0]`", "!`{\"a\":1}`", "`[]` == `{}`", "'' == `null`", "`0` == `false`", "`1` == '1'", "contains('a', 'b')", "contains('1', `1`)", "!`0`", "!`true`", "`false` && `true`", "`null` == `false`", "`[]` == `[null]`"},
+		"true": {"`1` == `1`", "!`null`", "!''", "!`[]`", "!`{}`", "contains('a', 'a')", "`1` < `2`", "`1.0` == `1`", "`[]` == `[]`", "`{}` == `{}`", "!`false`", "starts_with('a', '')", "contains(`[null]`, `null`)", "`null` == `null`", "`1` != `2`", "`\"\"` == ''", "`1e0` == `1`", "`[1, 2]` != `[2, 1]`", "`{\"a\": 1, \"b\": 2}` == `{\"b\": 2, \"a\": 1}`", "contains('', '')", "ends_with('a', '')"},
+	}
+	for _, j := range []string{"[]", "{}", `""`, "0", "null", "false", "true"} {
+		add(j, "`"+j+"`", zdoc)
+		for _, p := range producers[j] {
+			if p == "" {
+				continue
+			}
+			add(j, p, map[string]any{"z": json.Number("1")})
+		}
+	}
+	return out
+}
+
+// runValueSources evaluates the family; emit (if not nil) hands a sample to the model comparison
+func runValueSources(sum *Summary, site string, stride int, emit func(expr string, doc any, o Obs)) {
+	type ref struct {
+		o    Obs
+		expr string
+		doc  any
+	}
+	groups := map[string]ref{}
+	reported := 0
+	for i, c := range valueSourceFamily() {
+		o := search(c.expr, c.doc)
+		sum.count("value-source/" + o.Kind)
+		if emit != nil && stride > 0 && i%stride == 0 && o.Kind != "panic" {
+			emit(c.expr, c.doc, o)
+		}
+		first, ok := groups[c.key]
+		if !ok {
+			groups[c.key] = ref{o, c.expr, c.doc}
+			continue
+		}
+		if !sameObs(first.o, o, false) && reported < 12 {
+			reported++
+			sum.direct(site, c.expr, c.doc, fmt.Sprintf("the same value from another source gives another outcome: %q on %s gives %s, but %q gives %s", first.expr, toJSON(first.doc), describe(first.o), c.expr, describe(o)))
+		}
+	}
+}
+
+// extraTextCases: the text-only families of a property whose main stream consists of reference cases
+func extraTextCases(prop, tier, out string, sum *Summary, values, rebuilds bool) {
+	tc := newTextCases(prop, out, sum)
+	if values {
+		stride := 9
+		if tier == "thorough" {
+			stride = 2
+		}
+		runValueSources(sum, "source-independence", stride, tc.add)
+	}
+	if rebuilds {
+		for i, text := range rebuildFamily() {
+			if tier != "thorough" && i%2 != 0 {
+				continue
+			}
+			if strings.Contains(text, "group_by") || strings.Contains(text, "merge(") || strings.Contains(text, "from_items(") {
+				continue // objects built from enumerations: compared by the properties that own them
+			}
+			for _, ds := range rebuildDocs {
+				o := search(text, jsonDoc(ds))
+				sum.count("rebuild/" + o.Kind)
+				if hasEnumText(text) != "true" || strings.Contains(text, "g[*]") || strings.Contains(text, "a[*]") || strings.Contains(text, "s[*]") || strings.Contains(text, "[*]") && !strings.Contains(text, ".*") && !strings.Contains(text, "values(") && !strings.Contains(text, "keys(") && !strings.Contains(text, "items(") {
+					tc.add(text, jsonDoc(ds), o) // (enumerations of object members have no order to compare)
+				}
+			}
+		}
+	}
+	tc.done()
+}
+
+// enumText: the text enumerates the members of an object (their order is Go's map order)
+func enumText(t string) bool {
+	for _, w := range []string{".*", "values(", "keys(", "items(", "merge(", "group_by(", "from_items(", "| *", "[*, ", "(*)"} {
+		if strings.Contains(t, w) {
+			return true
+		}
+	}
+	return false
+}
